@@ -144,7 +144,18 @@ class FsMixin:
             return R(s, a[0])
         return self.split(st, k != ABSENT, yes, lambda s: [Res(s, None, "raise", "FileNotFoundError")])
 
-    m_Path_replace = m_Path_rename
+    def m_Path_replace(self, st, recv, a, kw, lineno):
+        """os.replace: like rename, the destination is overwritten; recorded as a distinct effect"""
+        p, q = vp(recv.t), vp(a[0].t)
+        k = self.fk(st, p)
+
+        def yes(s):
+            self.fs_effect(s, "replace", [recv, a[0]], lineno)
+            txt, tgt = z3.Select(s.field("$fs_text"), p), z3.Select(s.field("$fs_target"), p)
+            self.fs_set(s, q, kind=k, text=txt, target=tgt)
+            self.fs_set(s, p, kind=ABSENT)
+            return R(s, a[0])
+        return self.split(st, k != ABSENT, yes, lambda s: [Res(s, None, "raise", "FileNotFoundError")])
 
     def m_Path_symlink_to(self, st, recv, a, kw, lineno):
         p = vp(recv.t)
